@@ -428,9 +428,128 @@ fn iter_exhaustive(ctx: &Ctx, props: Props, out: &mut ShardOut) {
     }
 }
 
+fn simple_found(prop: &str, rule: &str, detail: String) -> Found {
+    Found {
+        v: Violation { prop: prop.into(), rule: rule.into(), sig: format!("{}|{}", prop, rule), detail, step: 0 },
+        cfg: Cfg::lru(1),
+        kt: KeyType::Tracked,
+        ops: vec![],
+        universe: vec![],
+        seeds: [0; 4],
+        extra: BTreeMap::new(),
+    }
+}
+
+/// C10: every constructor must hand the requested sizes and sample size to the parts (the
+/// reset schedule of the estimator is part of "records one access ... for all sample sizes")
+fn wtlfu_config_propagation(out: &mut ShardOut) {
+    use caches::{Cache, WTinyLFUCache};
+    let mut bad: Option<String> = None;
+    let mut check = |name: String, c: &WTinyLFUCache<u32, u32>, w: usize, t: usize, p: usize, samples: usize| {
+        let d = c.verif_estimator().verif_digest();
+        let m = c.verif_main();
+        if d.1 != samples || c.window_cache_cap() != w || m.protected_cap() != t || m.probationary_cap() != p || c.cap() != w + t + p || d.0 != 0 {
+            bad = Some(format!(
+                "{}: built with window {} / protected {} / probationary {} / samples {} (reset clock {}), requested {} / {} / {} / {}",
+                name, c.window_cache_cap(), m.protected_cap(), m.probationary_cap(), d.1, d.0, w, t, p, samples
+            ));
+        }
+    };
+    for &(w, t, p, s) in &[(1usize, 1usize, 1usize, 1usize), (1, 2, 3, 4), (3, 1, 2, 7), (2, 8, 2, 100), (1, 3, 1, 2)] {
+        if let Ok(c) = WTinyLFUCache::<u32, u32>::with_sizes(w, t, p, s) {
+            check(format!("with_sizes({}, {}, {}, {})", w, t, p, s), &c, w, t, p, s);
+        }
+        out.cov.monitored += 1;
+        out.cov.triples.insert(format!("config|wtlfu|with_sizes|{}-{}-{}-{}", w, t, p, s));
+    }
+    for &(n, s) in &[(100usize, 4usize), (100, 1), (200, 1000), (1000, 10), (150, 3)] {
+        let (w, t, p) = (((n as f64) * 0.01) as usize, ((n as f64) * 0.8) as usize, ((n as f64) * (1f64 - 0.8)) as usize);
+        if let Ok(c) = WTinyLFUCache::<u32, u32>::new(n, s) {
+            check(format!("new({}, {})", n, s), &c, w, t, p, s);
+        }
+        out.cov.monitored += 1;
+        out.cov.triples.insert(format!("config|wtlfu|new|{}-{}", n, s));
+    }
+    if let Some(d) = bad {
+        out.add(simple_found("C10", "config-propagation", d));
+    }
+}
+
+/// C04: conversions (`From` / `FromIterator`) own their input too, including inputs that
+/// repeat a key: every pair is retained or dropped exactly once, purge and drop release all
+fn conversions_conserve(out: &mut ShardOut, rng: &mut Rng) {
+    use caches::{Cache, RawLRU};
+    use std::collections::{LinkedList, VecDeque};
+    for round in 0..60u32 {
+        reg_reset();
+        let n = rng.range(0, 12) as usize;
+        let dup = round % 2 == 0;
+        let mut keys: Vec<u32> = (0..n as u32).collect();
+        if dup && n > 0 {
+            let extra: Vec<u32> = (0..rng.range(1, 4)).map(|_| rng.below(n as u64) as u32).collect();
+            keys.extend(extra);
+        }
+        let distinct = keys.iter().collect::<std::collections::BTreeSet<_>>().len() as u64;
+        let mk = |keys: &[u32]| -> Vec<(TKey, TVal)> { keys.iter().enumerate().map(|(i, k)| (TKey::new(*k), TVal::new(i as u64 + 1))).collect() };
+        let which = round % 5;
+        let r = guarded(|| {
+            let mut c: RawLRU<TKey, TVal> = match which {
+                0 => RawLRU::from(mk(&keys)),
+                1 => mk(&keys).into_iter().collect(),
+                2 => RawLRU::from(mk(&keys).into_iter().collect::<VecDeque<_>>()),
+                3 => RawLRU::from(mk(&keys).into_iter().collect::<LinkedList<_>>()),
+                _ => {
+                    let v = mk(&keys);
+                    let c = RawLRU::from(&v[..]);
+                    drop(v);
+                    c
+                }
+            };
+            let errs = reg_take_errors();
+            if let Some(e) = errs.first() {
+                return Some(format!("{} while converting {} pairs ({} distinct keys)", e, keys.len(), distinct));
+            }
+            let (lk, lv) = reg_live();
+            if c.len() as u64 != distinct || lk != distinct || lv != distinct {
+                return Some(format!("conversion {} of {} pairs ({} distinct keys): len() = {}, {} keys / {} values alive afterwards", which, keys.len(), distinct, c.len(), lk, lv));
+            }
+            if round % 3 == 0 {
+                c.purge();
+                let (lk, lv) = reg_live();
+                if lk != 0 || lv != 0 || !c.is_empty() {
+                    return Some(format!("purge after conversion {} of {} pairs ({} distinct): {} keys / {} values still alive", which, keys.len(), distinct, lk, lv));
+                }
+            }
+            drop(c);
+            let (lk, lv) = reg_live();
+            if lk != 0 || lv != 0 {
+                return Some(format!("drop after conversion {} of {} pairs ({} distinct): {} keys / {} values still alive", which, keys.len(), distinct, lk, lv));
+            }
+            reg_take_errors().first().map(|e| format!("{} when dropping a converted cache", e))
+        });
+        out.cov.monitored += 1;
+        out.cov.triples.insert(format!("conversion|lru|kind{}|n{}|dup{}", which, n.min(3), dup));
+        let d = match r {
+            Ok(x) => x,
+            Err(_) => None,
+        };
+        if let Some(d) = d {
+            out.add(simple_found("C04", "conversion-conservation", d));
+            return;
+        }
+    }
+}
+
 /// the engine-based check of one property on one shard
 pub fn engine_suite(ctx: &Ctx) -> ShardOut {
     let mut out = ShardOut::default();
+    if ctx.prop == "C10" && ctx.shard == 0 {
+        wtlfu_config_propagation(&mut out);
+    }
+    if ctx.prop == "C04" {
+        let mut r = Rng::new(mix(ctx.seed, 0xC04C) ^ ctx.shard);
+        conversions_conserve(&mut out, &mut r);
+    }
     if ctx.prop == "C12" && ctx.shard == 0 {
         putresult_structural(&mut out);
     }
